@@ -8,6 +8,8 @@ import (
 	"io"
 	"net/http"
 	"strings"
+	"sync"
+	"sync/atomic"
 	"time"
 
 	webdav "github.com/emersion/go-webdav"
@@ -31,6 +33,9 @@ type c14Resp struct {
 	Href   string
 	Status int // 0: no status element; -1: empty status element; else code
 	Props  []c14Prop
+	// with a response-level status: a DAV:error holding one condition element and/or a responsedescription
+	ErrCond bool `json:",omitempty"`
+	Desc    bool `json:",omitempty"`
 }
 
 type c14Method struct {
@@ -100,6 +105,12 @@ func c14Doc(resps []c14Resp, syncToken bool) string {
 		re := indep.E(indep.DAV, "response", indep.E(indep.DAV, "href").T(r.Href))
 		if r.Status != 0 {
 			re.Add(indep.E(indep.DAV, "status").T(statusText(r.Status)))
+			if r.ErrCond {
+				re.Add(indep.E(indep.DAV, "error", indep.E(indep.DAV, "lock-token-submitted", indep.E(indep.DAV, "href").T("/locked"))))
+			}
+			if r.Desc {
+				re.Add(indep.E(indep.DAV, "responsedescription").T("the resource is locked"))
+			}
 		} else {
 			byStatus := map[int][]*indep.El{}
 			var order []int
@@ -358,7 +369,18 @@ type scripted struct {
 	Status int
 	CT     string
 	Body   string
+	mu     sync.Mutex
+	bodies []*c14Body // every response body handed to the library
 }
+
+// c14Body records whether the library released the response body (an unreleased body pins the
+// connection: on a connection-limited transport the next call hangs)
+type c14Body struct {
+	io.Reader
+	closed atomic.Bool
+}
+
+func (b *c14Body) Close() error { b.closed.Store(true); return nil }
 
 func (s *scripted) Do(req *http.Request) (*http.Response, error) {
 	if req.Body != nil {
@@ -374,8 +396,12 @@ func (s *scripted) Do(req *http.Request) (*http.Response, error) {
 	if s.Status/100 == 3 {
 		h.Set("Location", "http://h/elsewhere")
 	}
+	body := &c14Body{Reader: strings.NewReader(s.Body)}
+	s.mu.Lock()
+	s.bodies = append(s.bodies, body)
+	s.mu.Unlock()
 	return &http.Response{StatusCode: s.Status, Status: fmt.Sprintf("%d %s", s.Status, http.StatusText(s.Status)), Proto: "HTTP/1.1", ProtoMajor: 1, ProtoMinor: 1,
-		Header: h, Body: io.NopCloser(strings.NewReader(s.Body)), ContentLength: int64(len(s.Body)), Request: req}, nil
+		Header: h, Body: body, ContentLength: int64(len(s.Body)), Request: req}, nil
 }
 
 type c14Case struct {
@@ -391,6 +417,7 @@ type c14Case struct {
 	ZeroResp int    `json:"zero_resp,omitempty"`
 	ZeroProp *qname `json:"zero_prop,omitempty"`
 	Deleted  string `json:"deleted,omitempty"`
+	WantCond string `json:"want_condition,omitempty"` // local name of the DAV:error condition the error must carry
 }
 
 func c14Run1(m c14Method, sc *scripted) (res interface{}, err error, pan string, hung bool) {
@@ -441,10 +468,32 @@ func c14Judge(m c14Method, c c14Case) (clause, detail string) {
 	if pan != "" {
 		return "panic", pan
 	}
+	sc.mu.Lock()
+	for i, b := range sc.bodies {
+		if !b.closed.Load() {
+			sc.mu.Unlock()
+			return "response-body-not-released", fmt.Sprintf("response %d of the call was never closed (error: %v)", i, err)
+		}
+	}
+	sc.mu.Unlock()
 	if c.Kind == "placement" {
 		if c.WantErr {
 			if err == nil {
 				return "non-success-status-served-as-valid-data", fmt.Sprintf("result %s", trunc(js(res), 300))
+			}
+			if c.WantCond != "" {
+				var de *internal.Error
+				found := false
+				if errors.As(err, &de) {
+					for _, r := range de.Raw {
+						if n, ok := r.XMLName(); ok && n.Space == "DAV:" && n.Local == c.WantCond {
+							found = true
+						}
+					}
+				}
+				if !found {
+					return "resource-error-without-condition", fmt.Sprintf("error %q does not carry DAV:%s", err.Error(), c.WantCond)
+				}
 			}
 			return "", ""
 		}
@@ -628,6 +677,18 @@ func c14PlacementCases(m c14Method, full bool) []c14Case {
 			respStatuses := []int{404, 403, 500, -1, 207, 199}
 			for k := 2; k <= len(c14BadStatus); k++ {
 				respStatuses = append(respStatuses, -k)
+			}
+			// a failed resource with a DAV:error condition and/or a description: the error carries the condition
+			for _, st := range []int{403, 423} {
+				for v := 1; v <= 3; v++ {
+					r := clone(base)
+					r[ri].Status, r[ri].ErrCond, r[ri].Desc = st, v&1 != 0, v&2 != 0
+					cond := ""
+					if v&1 != 0 {
+						cond = "lock-token-submitted"
+					}
+					out = append(out, c14Case{Method: m.Name, Kind: "placement", Resps: r, WantErr: true, WantCond: cond})
+				}
 			}
 			for _, st := range respStatuses {
 				r := clone(base)
